@@ -1,9 +1,12 @@
 (* C01 (and the system-level clauses of C02, C03, C06, C18): soundness of the region comparator.
    What is proved: the decision made for a scanned horizontal line holds for EVERY point of that
-   line (infinitely many), and every witness the checker reports is a genuine violation.  Which
+   line (infinitely many), and every witness the checker reports is a genuine violation; and the SLAB
+   LIFT: what is decided at the cell representatives of the middle line of a slab (two consecutive event
+   ordinates: no vertex in between, spanning edges in a consistent order) holds at every point strictly
+   inside the slab, so that lines + slabs + the trivial outside decide EVERY POINT OF THE PLANE.  Which
    paths are fed to the checker is per-run validation (DESIGN.md section 4). *)
 From Coq Require Import QArith Qminmax Qabs.
-From LV Require Import Base.Prelude Model.Bezier Model.Winding Checker.Region Proofs.C01_Region.
+From LV Require Import Base.Prelude Model.Bezier Model.Winding Checker.Region Checker.Slab Proofs.C01_Region Proofs.C01_Slab.
 Open Scope Q_scope.
 
 (* the squared distance to a segment is the minimum over the segment *)
@@ -61,6 +64,43 @@ Example C01_square_hole_detected :
                   [((0,0),(1,0),(1,1))]).
 Proof. vm_compute. do 3 eexists. left. reflexivity. Qed.
 
+(* ---------------------------------------------------------------- the slab lift (Checker/Slab.v)
+   [check_slab] looks at finitely many representatives on the middle line of the slab y0 < y < y1; if it accepts,
+   the property holds at EVERY point (x, y) of the open slab. *)
+Theorem C01_slab_sound : forall r tol2 es ts y0 y1,
+  check_slab r tol2 es ts y0 y1 = true ->
+  forall x y, y0 < y -> y < y1 -> fill_ok_at r tol2 es ts (x, y).
+Proof. exact slab_sound. Qed.
+
+(* the same for "covered at most once" (system-level clause of C02) *)
+Theorem C01_slab_overlap_sound : forall tol2 es ts y0 y1,
+  check_slab_overlap tol2 es ts y0 y1 = true ->
+  forall x y, y0 < y -> y < y1 -> far tol2 es (x, y) -> (cover_count ts (x, y) <= 1)%nat.
+Proof. exact slab_overlap_sound. Qed.
+
+(* THE WHOLE PLANE: [ys] sorted, containing every vertex ordinate (both checked by [check_plane]); every line of
+   [ys] accepted by [check_line], every slab between consecutive ones by [check_slab]: then the fill is right at
+   every point p of the plane (covered iff inside under the fill rule, unless within the tolerance of the outline) *)
+Theorem C01_plane_sound : forall r tol2 es ts ys, 0 <= tol2 ->
+  check_plane r tol2 es ts ys = true ->
+  forall p, fill_ok_at r tol2 es ts p.
+Proof. exact plane_sound. Qed.
+
+(* non-vacuity: the unit square cut into two triangles is accepted on the whole plane; with a gap it is not; the
+   bow-tie needs the ordinate of its crossing as an event *)
+Example C01_example_plane :
+  let sq : list edge := [((0,0),(4,0)); ((4,0),(4,4)); ((4,4),(0,4)); ((0,4),(0,0))] in
+  let ok : list triangle := [((0,0),(4,0),(4,4)); ((0,0),(4,4),(0,4))] in
+  let gap : list triangle := [((0,0),(4,0),(4,4)); ((0,0),(3,4),(0,4))] in
+  let bow : list edge := [((0,0),(4,4)); ((4,4),(4,0)); ((4,0),(0,4)); ((0,4),(0,0))] in
+  let tbow : list triangle := [((0,0),(2,2),(0,4)); ((4,0),(4,4),(2,2))] in
+  check_plane EvenOdd (1#100) sq ok (event_ys sq ok) = true /\
+  check_plane EvenOdd (1#100) sq gap (event_ys sq gap) = false /\
+  event_ys bow tbow = [0; 2; 4] /\
+  check_plane EvenOdd (1#100) bow tbow (event_ys bow tbow) = true /\
+  check_plane EvenOdd (1#100) bow tbow [0; 4] = false.
+Proof. vm_compute. repeat split; reflexivity. Qed.
+
 Print Assumptions C01_dist2_spec.
 Print Assumptions C01_band_convex.
 Print Assumptions C01_farb_spec.
@@ -68,3 +108,6 @@ Print Assumptions C01_constant_between_breakpoints.
 Print Assumptions C01_line_sound.
 Print Assumptions C01_witness_sound.
 Print Assumptions C01_sort_q_spec.
+Print Assumptions C01_slab_sound.
+Print Assumptions C01_slab_overlap_sound.
+Print Assumptions C01_plane_sound.
